@@ -193,3 +193,39 @@ package mcp
 //@   ensures[C16 no-operation-before-handshake] !old(c.initialized) ==> ret1 != nil && ret == nil && netops == old(netops)
 //@ func StdioClient.SendRootsListChangedNotification
 //@   ensures[C16 no-operation-before-handshake] !old(c.initialized) ==> ret != nil && netops == old(netops)
+
+// ---------------------------------------------------------------------------
+// handler.go — C15 (middleware onion), C03/C14 (dispatch)
+
+//@ ghost chaincalls int
+//@ ghost dispatches int
+//@
+//@ callspec Middleware
+//@   function
+//@ callspec HandlerFunc
+//@   counted chaincalls
+//@   modifies *
+//@
+//@ fun chain(ms []Middleware, core HandlerFunc, k int) HandlerFunc = k >= len(ms) ? core : Middleware(ms[k], chain(ms, core, k + 1))
+//@
+//@ func mcpHandler.applyMiddlewares
+//@   pure
+//@   loop 1 invariant[C15] 0 - 1 <= i && i < len(h.middlewares) && handler == chain(h.middlewares, old(handler), i + 1)
+//@   ensures[C15 index-0-outermost-each-middleware-once] result == chain(h.middlewares, handler, 0)
+//@
+//@ func mcpHandler.use
+//@   modifies h.middlewares
+//@   ensures[C15 appended-in-call-order] len(h.middlewares) == len(old(h.middlewares)) + 1 && h.middlewares[len(old(h.middlewares))] == middleware
+//@   ensures[C15 earlier-middlewares-kept] forall j int :: 0 <= j && j < len(old(h.middlewares)) ==> h.middlewares[j] == old(h.middlewares[j])
+//@
+//@ func mcpHandler.dispatchRequest
+//@   counted dispatches
+//@   modifies *
+//@
+//@ func mcpHandler.handleRequest$1
+//@   ensures[C15 core-dispatches-exactly-once] dispatches == old(dispatches) + 1
+//@
+//@ func mcpHandler.handleRequest
+//@   before call wrappedHandler#1 assert[C15 whole-chain-around-the-core] wrappedHandler == chain(h.middlewares, coreHandler, 0)
+//@   ensures[C15 chain-invoked-exactly-once] len(old(h.middlewares)) > 0 ==> chaincalls == old(chaincalls) + 1
+//@   ensures[C15 direct-dispatch-without-middlewares] len(old(h.middlewares)) == 0 ==> dispatches == old(dispatches) + 1
